@@ -28,6 +28,10 @@ theorem uuidToData_inj {u v : Int} (hu : IsUuid u) (hv : IsUuid v) (h : uuidToDa
   injection h1 with h1
   exact h1.symm
 
+-- from here on `uuidToData` and `keyOf` are used through their lemmas only (when the unifier
+-- tries to unfold them on open terms it runs out of stack on the 32/96-bit literals)
+attribute [local irreducible] uuidToData keyOf
+
 /-! ### the registry invariant -/
 
 /-- The raw part is well-formed and the registry items (type `TYPE_ID_EX`) are in one-to-one
@@ -439,5 +443,263 @@ theorem Builder.addItem_inv {b b' : Builder} {tid : TypeId} {id : Nat} {data : L
               · right; refine ⟨u, ?_⟩
                 simp only; rw [keyType_keyOf (by omega) hid, mfind_minsert, if_pos rfl]
               · exact hb1.types p hp'
+
+/-! ### `recycle` -/
+
+theorem key_decomp {k : Int} (h0 : 0 ≤ k) (h : I32 k) : k = (keyType k : Int) * 65536 + (keyId k : Int) := by
+  unfold I32 at h; unfold keyType keyId
+  have h2 : 0 ≤ (k % 4294967296) / 65536 := by omega
+  have h3 : 0 ≤ (k % 4294967296) % 65536 := by omega
+  rw [Int.toNat_of_nonneg h2, Int.toNat_of_nonneg h3]
+  omega
+
+theorem keyOf_zero_eq {t : Nat} (h : t < 65536) : keyOf typeIdEx t = (t : Int) := by
+  unfold keyOf wrap; rw [typeIdEx_eq]; split <;> omega
+
+theorem recycleNext_range : ∀ (m : Items) (n N : Nat), Sorted m → (∀ p ∈ m, 0 ≤ p.1 ∧ I32 p.1) →
+    n ≤ N → N ≤ 32768 → offsetExt ≤ n →
+    (∀ p ∈ m, keyType p.1 = typeIdEx → n ≤ keyId p.1 ∧ keyId p.1 < N) →
+    (∀ t, n ≤ t → t < N → keyOf typeIdEx t ∈ m.map Prod.fst) → recycleNext m n = some N := by
+  intro m
+  induction m with
+  | nil =>
+    intro n N _ _ hnN _ _ _ honto
+    by_cases e : n = N
+    · simp [recycleNext, e]
+    · exfalso
+      have := honto n (Nat.le_refl _) (by omega)
+      simp at this
+  | cons q r ih =>
+    obtain ⟨k, d⟩ := q
+    intro n N hs hpos hnN hN hoff hin honto
+    rw [sorted_cons] at hs
+    have hk0 : 0 ≤ k := (hpos (k, d) (by simp)).1
+    have hkI : I32 k := (hpos (k, d) (by simp)).2
+    have hdec : k = (keyType k : Int) * 65536 + (keyId k : Int) := key_decomp hk0 hkI
+    rw [offsetExt_eq] at hoff
+    by_cases ht : keyType k = typeIdEx
+    · -- a registry item: it is the one with id `n`
+      have h1 : n ≤ keyId k := (hin (k, d) (by simp) ht).1
+      have h2 : keyId k < N := (hin (k, d) (by simp) ht).2
+      have hk_eq : k = (keyId k : Int) := by
+        rw [ht, typeIdEx_eq] at hdec; omega
+      have hn_mem := honto n (Nat.le_refl _) (by omega)
+      rw [keyOf_zero_eq (by omega)] at hn_mem
+      simp only [List.map_cons, List.mem_cons] at hn_mem
+      have hid : keyId k = n := by
+        rcases hn_mem with e | hmem
+        · omega
+        · obtain ⟨p, hp, hpe⟩ := List.mem_map.mp hmem
+          have := hs.1 p hp
+          omega
+      have c1 : offsetExt ≤ keyId k ∧ keyId k < 32768 := by rw [offsetExt_eq]; omega
+      have c2 : ¬ n + 256 ≥ 65536 := by omega
+      have c3 : keyId k < n + 256 := by omega
+      simp only [recycleNext, ht, ne_eq, not_true_eq_false, if_false, c1, and_self, if_true, c2, c3]
+      rw [hid]
+      apply ih (n + 1) N hs.2 (fun p hp => hpos p (by simp [hp])) (by omega) hN (by rw [offsetExt_eq]; omega)
+      · intro p hp hpt
+        obtain ⟨h1', h2'⟩ := hin p (by simp [hp]) hpt
+        refine ⟨?_, h2'⟩
+        obtain ⟨hp0, hpI⟩ := hpos p (by simp [hp])
+        have hdp := key_decomp hp0 hpI
+        rw [hpt, typeIdEx_eq] at hdp
+        have := hs.1 p hp
+        omega
+      · intro t ht1 ht2
+        have := honto t (by omega) ht2
+        simp only [List.map_cons, List.mem_cons] at this
+        rcases this with e | hmem
+        · exfalso
+          rw [keyOf_zero_eq (by omega)] at e
+          omega
+        · exact hmem
+    · -- the first non-registry item ends the loop: there is no registry item at all
+      have hN' : n = N := by
+        by_cases e : n = N
+        · exact e
+        · exfalso
+          have hn_mem := honto n (Nat.le_refl _) (by omega)
+          rw [keyOf_zero_eq (by omega)] at hn_mem
+          have hkt : 1 ≤ keyType k := by
+            have h' : keyType k ≠ 0 := by rw [← typeIdEx_eq]; exact ht
+            omega
+          have hkid := keyId_lt k
+          simp only [List.map_cons, List.mem_cons] at hn_mem
+          rcases hn_mem with e' | hmem
+          · omega
+          · obtain ⟨p, hp, hpe⟩ := List.mem_map.mp hmem
+            have := hs.1 p hp
+            omega
+      simp [recycleNext, ht, hN']
+
+theorem recycleAdd_eq_addAll : ∀ (ext : List (Int × Nat)) (raw : RawSnap),
+    recycleAdd ext raw =
+      match addAll (ext.map (fun p => (keyOf typeIdEx p.2, uuidToData p.1))) raw with
+      | .ok r => some r
+      | .err _ => none
+      | .panic _ => none := by
+  intro ext
+  induction ext with
+  | nil => intro raw; rfl
+  | cons q r ih =>
+    obtain ⟨u, t⟩ := q
+    intro raw
+    simp only [recycleAdd, List.map_cons, addAll]
+    cases raw.addItem (keyOf typeIdEx t) (uuidToData u) with
+    | error e => rfl
+    | ok raw' => exact ih raw'
+
+theorem addAll_WF : ∀ (l : Items) (s0 r : RawSnap), s0.WF → (∀ p ∈ l, I32 p.1 ∧ ∀ x ∈ p.2, I32 x) →
+    addAll l s0 = .ok r → r.WF := by
+  intro l
+  induction l with
+  | nil => intro s0 r h0 _ h; simp [addAll] at h; rw [← h]; exact h0
+  | cons q l ih =>
+    obtain ⟨k, d⟩ := q
+    intro s0 r h0 hI h
+    simp only [addAll] at h
+    cases ha : s0.addItem k d with
+    | error e => simp [ha] at h
+    | ok s1 =>
+      simp only [ha] at h
+      have := hI (k, d) (by simp)
+      exact ih s1 r (addItem_WF h0 this.1 this.2 ha) (fun p hp => hI p (by simp [hp])) h
+
+theorem mfind_of_mem_nodup {α : Type} : ∀ (l : List (Int × α)) (k : Int) (v : α), (l.map Prod.fst).Nodup →
+    (k, v) ∈ l → mfind k l = some v := by
+  intro l
+  induction l with
+  | nil => intro k v _ h; simp at h
+  | cons q l ih =>
+    obtain ⟨k', v'⟩ := q
+    intro k v hnd h
+    simp only [List.map_cons, List.nodup_cons] at hnd
+    simp only [List.mem_cons, Prod.mk.injEq] at h
+    rcases h with ⟨e1, e2⟩ | h
+    · subst e1 e2; simp [mfind]
+    · have hne : k ≠ k' := by
+        intro e
+        apply hnd.1
+        rw [← e]
+        exact mem_keys_of_mem h
+      simp only [mfind, hne, if_false]
+      exact ih k v hnd.2 h
+
+theorem nodup_map_of_sorted {α β : Type} (g : Int × α → β) : ∀ (ext : List (Int × α)), Sorted ext →
+    (∀ p ∈ ext, ∀ q ∈ ext, g p = g q → p.1 = q.1) → (ext.map g).Nodup := by
+  intro ext
+  induction ext with
+  | nil => intro _ _; simp
+  | cons a r ih =>
+    obtain ⟨u, t⟩ := a
+    intro hs hinj
+    rw [sorted_cons] at hs
+    simp only [List.map_cons, List.nodup_cons]
+    refine ⟨?_, ih hs.2 (fun p hp q hq => hinj p (by simp [hp]) q (by simp [hq]))⟩
+    intro hmem
+    obtain ⟨q, hq, he⟩ := List.mem_map.mp hmem
+    have := hinj (u, t) (by simp) q (by simp [hq]) he.symm
+    have hlt := hs.1 q hq
+    simp only at this
+    omega
+
+theorem nonneg_of_type_lt {k : Int} (h : I32 k) (ht : keyType k < 32768) : 0 ≤ k := by
+  unfold I32 at h; unfold keyType at ht
+  omega
+
+/-- `Snap::recycle` of a builder-made snapshot: it succeeds, keeps every UUID type with its number,
+re-inserts the registry items, and continues numbering after the highest number in use. -/
+theorem Builder.recycle_inv {b : Builder} (hb : b.Inv) :
+    ∃ b', b.snap.recycle = some b' ∧ b'.Inv ∧ b'.snap.ext = b.snap.ext ∧ b'.nextTypeId = b.nextTypeId := by
+  obtain ⟨hS, hI, hN, hZ⟩ := hb.ok.raw_wf
+  obtain ⟨hnr1, hnr2⟩ := hb.next_range
+  -- numbering
+  have hnext : recycleNext b.snap.raw.items offsetExt = some b.nextTypeId := by
+    apply recycleNext_range _ _ _ hS _ hnr1 hnr2 (Nat.le_refl _)
+    · intro p hp hpt
+      obtain ⟨u, hu, _⟩ := hb.ok.reg_ext p hp hpt
+      exact hb.ext_range u _ hu
+    · intro t ht1 ht2
+      obtain ⟨u, hu⟩ := hb.ext_onto t ht1 ht2
+      have := (hb.ok.ext_reg u t hu).2.2
+      exact mem_keys_of_mem (mem_of_mfind this)
+    · intro p hp
+      refine ⟨?_, (hI p hp).1⟩
+      apply nonneg_of_type_lt (hI p hp).1
+      rcases hb.types p hp with h | ⟨u, hu⟩
+      · rw [offsetExt_eq] at h; omega
+      · have := (hb.ext_range u _ hu).2; omega
+  -- re-insertion of the registry items
+  let f : Int × Nat → Int × List Int := fun p => (keyOf typeIdEx p.2, uuidToData p.1)
+  have hmemf : ∀ p ∈ b.snap.ext.map f, ∃ u t, mfind u b.snap.ext = some t ∧ p = (keyOf typeIdEx t, uuidToData u) := by
+    intro p hp
+    obtain ⟨q, hq, he⟩ := List.mem_map.mp hp
+    obtain ⟨u, t⟩ := q
+    exact ⟨u, t, mfind_of_mem hb.ok.ext_sorted hq, he.symm⟩
+  have hnd : ((b.snap.ext.map f).map Prod.fst).Nodup := by
+    have e : (b.snap.ext.map f).map Prod.fst = b.snap.ext.map (fun p => keyOf typeIdEx p.2) := by
+      rw [List.map_map]; rfl
+    rw [e]
+    apply nodup_map_of_sorted _ _ hb.ok.ext_sorted
+    intro p hp q hq he
+    obtain ⟨u1, t1⟩ := p
+    obtain ⟨u2, t2⟩ := q
+    have h1 := hb.ok.ext_reg u1 t1 (mfind_of_mem hb.ok.ext_sorted hp)
+    have h2 := hb.ok.ext_reg u2 t2 (mfind_of_mem hb.ok.ext_sorted hq)
+    have he' : keyOf typeIdEx t1 = keyOf typeIdEx t2 := he
+    have h3 : mfind (keyOf typeIdEx t2) b.snap.raw.items = some (uuidToData u1) := he' ▸ h1.2.2
+    have h4 : some (uuidToData u1) = some (uuidToData u2) := h3.symm.trans h2.2.2
+    exact uuidToData_inj h1.1 h2.1 (Option.some.inj h4)
+  obtain ⟨r, hr, hrs, hrf⟩ := addAll_spec b.snap.raw.items hS ⟨hN, hZ⟩ (b.snap.ext.map f) RawSnap.empty
+    sorted_nil (by intro k v h; simp [RawSnap.empty, mfind] at h)
+    (by
+      intro p hp
+      obtain ⟨u, t, hu, rfl⟩ := hmemf p hp
+      exact (hb.ok.ext_reg u t hu).2.2)
+    (by intro p _; simp [RawSnap.empty, mfind]) hnd
+  have hrwf : r.WF := addAll_WF _ _ _ empty_WF (by
+    intro p hp
+    obtain ⟨u, t, hu, rfl⟩ := hmemf p hp
+    exact ⟨keyOf_I32 _ _, uuidToData_I32 u⟩) hr
+  have hrf' : ∀ k, mfind k r.items = mfind k (b.snap.ext.map f) := by
+    intro k; rw [hrf k]; simp [RawSnap.empty, mfind]
+  have hrmem : ∀ p ∈ r.items, ∃ u t, mfind u b.snap.ext = some t ∧ p = (keyOf typeIdEx t, uuidToData u) := by
+    intro p hp
+    obtain ⟨pk, pv⟩ := p
+    have := mfind_of_mem hrs hp
+    rw [hrf'] at this
+    exact hmemf (pk, pv) (mem_of_mfind this)
+  refine ⟨⟨⟨r, b.snap.ext⟩, b.nextTypeId⟩, ?_, ?_, rfl, rfl⟩
+  · unfold Snap.recycle
+    rw [hnext]
+    simp only
+    rw [recycleAdd_eq_addAll, hr]
+  · refine ⟨⟨hrwf, hb.ok.ext_sorted, ?_, ?_, ?_⟩, hb.ext_range, hb.ext_onto, hb.next_range, ?_⟩
+    · intro u t hu
+      obtain ⟨h1, h2, _⟩ := hb.ok.ext_reg u t hu
+      refine ⟨h1, h2, ?_⟩
+      show mfind (keyOf typeIdEx t) r.items = some (uuidToData u)
+      rw [hrf']
+      apply mfind_of_mem_nodup _ _ _ hnd
+      exact List.mem_map.mpr ⟨(u, t), mem_of_mfind hu, rfl⟩
+    · intro p hp _
+      obtain ⟨u, t, hu, rfl⟩ := hrmem p hp
+      refine ⟨u, ?_, rfl⟩
+      show mfind u b.snap.ext = some (keyId (keyOf typeIdEx t))
+      rw [keyId_keyOf (by decide) (hb.ok.ext_reg u t hu).2.1]
+      exact hu
+    · intro p hp hge
+      exfalso
+      obtain ⟨u, t, hu, rfl⟩ := hrmem p hp
+      simp only at hge
+      rw [keyType_keyOf (by decide) (hb.ok.ext_reg u t hu).2.1, offsetExt_eq, typeIdEx_eq] at hge
+      omega
+    · intro p hp
+      left
+      obtain ⟨u, t, hu, rfl⟩ := hrmem p hp
+      show keyType (keyOf typeIdEx t) < offsetExt
+      rw [keyType_keyOf (by decide) (hb.ok.ext_reg u t hu).2.1, offsetExt_eq, typeIdEx_eq]
+      omega
 
 end Tw.Snap
